@@ -33,5 +33,6 @@ case "$id" in
   C18) build "$B/cabi"; exec "$B/cabi" --prop "$id" --tier "$tier" --deadline "$DL" ;;
   C19) build "$B/copymove_asan"; exec "$B/copymove_asan" --prop "$id" --tier "$tier" --deadline "$DL" 2> "$B/asan_$id.log" ;;
   C20) build "$B/reject"; exec "$B/reject" --prop "$id" --tier "$tier" --deadline "$DL" ;;
+  C17) build "$B/search_asan" "$B/multidim_asan" "$B/mapped_asan" "$B/dynamic_asan" "$B/cabi_asan" "$B/copymove_asan"; exec python3 scripts/check_c17.py "$tier" "$DL" "$B" "$VERIF_ROOT" ;;
   *) echo "unknown property $id"; exit 2 ;;
 esac
